@@ -16,6 +16,10 @@ class NodeCap(Exception):
     pass
 
 
+class BadModelFile(Exception):
+    """The model file is one a real command-line solver refuses to read (e.g. a column name used twice)."""
+
+
 class Model:
     def __init__(self, names, obj, rows, maximise, constant=0):
         self.names = list(names)  # variable names, solver order
@@ -47,24 +51,37 @@ def _num(x):
 def from_pulp(lp):
     import pulp
 
+    # an in-memory solver knows variables as objects, not by name: two variables that share a name stay two
+    # variables here (a command-line solver, which is handed names in a file, is another matter - see from_mps)
     names = []
+    key_of = {}
+    objects = {}
+    seen = {}
     for v in lp.variables():
         if v.name == "__dummy":
             continue
         if v.cat != pulp.LpInteger or v.lowBound != 0 or v.upBound != 1:
             raise Unsupported("variable %s is not binary" % v.name)
-        names.append(v.name)
+        k = seen.get(v.name, 0)
+        seen[v.name] = k + 1
+        key = v.name if k == 0 else "%s#%d" % (v.name, k)
+        key_of[id(v)] = key
+        objects[key] = v
+        names.append(key)
     obj = {}
     constant = 0
     if lp.objective is not None:
         for v, c in lp.objective.items():
-            obj[v.name] = _num(c)
+            if id(v) in key_of:
+                obj[key_of[id(v)]] = _num(c)
         constant = _num(lp.objective.constant)
     rows = []
     for cname, c in lp.constraints.items():
-        coefs = {v.name: _num(k) for v, k in c.items()}
+        coefs = {key_of[id(v)]: _num(k) for v, k in c.items() if id(v) in key_of}
         rows.append((cname, coefs, c.sense, _num(-c.constant)))
-    return Model(names, obj, rows, lp.sense == pulp.LpMaximize, constant)
+    model = Model(names, obj, rows, lp.sense == pulp.LpMaximize, constant)
+    model.objects = objects
+    return model
 
 
 def from_mps(path, maximise=None):
@@ -114,6 +131,10 @@ def from_mps(path, maximise=None):
                 if var not in integer:
                     integer[var] = in_int
                     names.append(var)
+                elif names[-1] != var:
+                    # the entries of one column are contiguous in an MPS file: a name that comes back later is a
+                    # second column of the same name, which CBC and HiGHS reject ("duplicate column name")
+                    raise BadModelFile("column %s appears twice" % var)
                 for k in range(1, len(tok) - 1, 2):
                     row, val = tok[k], _num(tok[k + 1])
                     if row == objname:
